@@ -47,6 +47,10 @@ func genRule(r *rand.Rand, maxSeq int, nsess int) *Rule {
 	case 3:
 		ru.Action = "dup"
 		ru.Dups = r.Intn(3)
+		if r.Intn(2) == 0 {
+			ru.Action = "latedup"
+			ru.DelayMs = pick(r, 30, 200, 1000, 4000)
+		}
 	default:
 		ru.Action = "delay"
 		ru.DelayMs = pick(r, 1, 5, 20, 100, 400, 1500, 3000)
@@ -211,6 +215,7 @@ func c02Case(c *Ctx) *Result {
 	defer env.Close()
 	env.Net.Latency = lat
 	fp := newFaultPlan(env.Cfg.Users, env.Cfg.serverAddr().String(), c.Seed*31+int64(c.Idx))
+	fp.Net = env.Net
 	segsPerSess := budget / nsess / 1200
 	if segsPerSess < 4 {
 		segsPerSess = 4
